@@ -5,6 +5,7 @@ package c06
 import (
 	"context"
 	"fmt"
+	"strings"
 
 	sse "github.com/tmaxmax/go-sse"
 	"github.com/tmaxmax/go-sse/vrt"
@@ -13,21 +14,39 @@ import (
 	"verif/vs/run"
 )
 
+// Script of one subscriber's writer: which call fails (0: none) and whether the failure cancels its context.
+type Script struct {
+	FailAt int
+	Cancel bool
+}
+
+func (s Script) String() string {
+	if s.FailAt == 0 {
+		return "ok"
+	}
+	if s.Cancel {
+		return fmt.Sprintf("f%dc", s.FailAt)
+	}
+	return fmt.Sprintf("f%d", s.FailAt)
+}
+
 type Params struct {
-	NSubs        int
-	Fail         int  // leading Send/Flush calls of every subscriber whose outcome is a choice
-	CancelOnFail bool // a failing call may cancel the subscriber's context in the same step
-	Canceller    bool // a separate thread cancels each subscriber's context
-	NPub         int
-	Shutdown     bool // a separate thread calls Shutdown concurrently
-	Replayer     bool
-	ReplayFaults int
-	Preempt      int
-	Faults       int
+	Subs       []Script
+	Canceller  bool // a separate thread cancels each subscriber's context
+	NPub       int
+	Shutdown   bool // a separate thread calls Shutdown concurrently
+	Replayer   bool
+	ReplayFail int  // 0: never; k: the k-th Replay call returns an error
+	NoPreInit  bool // leave Joe's initialisation to whichever thread comes first
+	Preempt    int
 }
 
 func (p Params) Name() string {
-	return fmt.Sprintf("subs%d-fail%d-cof%v-canc%v-pub%d-shut%v-rep%v%d-pb%d-fb%d", p.NSubs, p.Fail, p.CancelOnFail, p.Canceller, p.NPub, p.Shutdown, p.Replayer, p.ReplayFaults, p.Preempt, p.Faults)
+	var ss []string
+	for _, s := range p.Subs {
+		ss = append(ss, s.String())
+	}
+	return fmt.Sprintf("subs[%s]-canc%v-pub%d-shut%v-rep%v%d-noinit%v-pb%d", strings.Join(ss, ","), p.Canceller, p.NPub, p.Shutdown, p.Replayer, p.ReplayFail, p.NoPreInit, p.Preempt)
 }
 
 type subRec struct {
@@ -50,16 +69,19 @@ func body(p Params) func() {
 		vrt.SetUser(w)
 		var rep sse.Replayer
 		if p.Replayer {
-			w.R = &jh.Replayer{ReplayFaults: p.ReplayFaults}
+			w.R = &jh.Replayer{ReplayFailAt: p.ReplayFail}
 			rep = w.R
 		}
 		j := &sse.Joe{Replayer: rep}
+		if !p.NoPreInit {
+			jh.PreInit(j)
+		}
 		var subs, others []vrt.Handle
-		for i := 0; i < p.NSubs; i++ {
+		for i, sc := range p.Subs {
 			name := fmt.Sprintf("S%d", i+1)
 			ctx := vrt.NewCtx(name)
 			ret := vrt.NewShared(name+".returned", 0)
-			wr := &jh.Writer{Name: fmt.Sprintf("W%d", i+1), Ctx: ctx, FailChoices: p.Fail, CancelOnFail: p.CancelOnFail, Returned: ret}
+			wr := &jh.Writer{Name: fmt.Sprintf("W%d", i+1), Ctx: ctx, FailAt: sc.FailAt, FailCancel: sc.Cancel, Returned: ret}
 			rec := &subRec{W: wr}
 			w.Subs = append(w.Subs, rec)
 			subs = append(subs, vrt.GoNamed(name, func() {
@@ -87,6 +109,23 @@ func body(p Params) func() {
 	}
 }
 
+func summary(r *vrt.Result) string {
+	w, _ := r.User.(*world)
+	if w == nil {
+		return r.Outcome
+	}
+	var sb strings.Builder
+	sb.WriteString(r.Outcome)
+	for _, s := range w.Subs {
+		fmt.Fprintf(&sb, " | %s ret=%v err=%v ev=%s", s.W.Name, s.Returned, s.Err, strings.Join(s.W.Events, ","))
+	}
+	fmt.Fprintf(&sb, " | pub=%v shut=%v final=%v", w.PubErrs, w.ShutErr, w.Final)
+	if w.R != nil {
+		fmt.Fprintf(&sb, " | R=%s", strings.Join(w.R.Log, ","))
+	}
+	return sb.String()
+}
+
 func check(p Params) func(r *vrt.Result) string {
 	return func(r *vrt.Result) string {
 		if r.Outcome != vrt.Done {
@@ -98,12 +137,13 @@ func check(p Params) func(r *vrt.Result) string {
 				return fmt.Sprintf("Subscribe #%d did not return", i+1)
 			}
 			var want error
+			kind := ""
 			if s.W.FirstErr != nil {
-				want = s.W.FirstErr
+				want, kind = s.W.FirstErr, "Send/Flush"
 			} else if w.R != nil {
 				for _, l := range w.R.Log {
 					if l == "R!:"+s.W.Name {
-						want = jh.ErrReplay
+						want, kind = jh.ErrReplay, "replay"
 					}
 				}
 			}
@@ -111,7 +151,10 @@ func check(p Params) func(r *vrt.Result) string {
 				continue // Shutdown won the race against this Subscribe: it was never registered
 			}
 			if s.Err != want {
-				return fmt.Sprintf("Subscribe of %s returned %v, want %v (its own Send/Flush/replay error if one occurred, else nil)", s.W.Name, s.Err, want)
+				if want != nil {
+					return fmt.Sprintf("Subscribe returned %v although the subscriber's own %s error occurred (%v)", s.Err, kind, want)
+				}
+				return fmt.Sprintf("Subscribe returned %v although no Send, Flush or replay error occurred for it", s.Err)
 			}
 		}
 		for _, e := range w.PubErrs {
@@ -123,47 +166,83 @@ func check(p Params) func(r *vrt.Result) string {
 	}
 }
 
+func sig(r *vrt.Result, msg string) string {
+	s := run.NormSig(r, msg)
+	// the value of the error is case data, not part of the class
+	if i := strings.Index(s, " error occurred ("); i >= 0 {
+		s = s[:i+len(" error occurred")]
+	}
+	return s
+}
+
 func scen(p Params) run.Scenario {
-	return run.Scenario{Name: p.Name(), Body: body(p), Check: check(p), Sig: run.NormSig,
-		Opts: vrt.Options{PreemptBound: p.Preempt, FaultBound: p.Faults, Prune: true}}
+	return run.Scenario{Name: p.Name(), Body: body(p), Check: check(p), Sig: sig, Summary: summary,
+		Opts: vrt.Options{PreemptBound: p.Preempt, FaultBound: -1, Prune: true}}
+}
+
+// scripts enumerates writer scripts failing at call 1..maxCall (Send1, Flush1, Send2, ...), with and without cancellation.
+func scripts(maxCall int) []Script {
+	out := []Script{{}}
+	for k := 1; k <= maxCall; k++ {
+		out = append(out, Script{k, false}, Script{k, true})
+	}
+	return out
 }
 
 func Scenarios(tier string) []run.Scenario {
 	var out []run.Scenario
 	add := func(p Params) { out = append(out, scen(p)) }
-	for _, cof := range []bool{false, true} {
-		for _, canc := range []bool{false, true} {
-			for _, shut := range []bool{false, true} {
-				// one subscriber, all interleavings, up to 3 faults among its first 3 calls
-				add(Params{NSubs: 1, Fail: 3, CancelOnFail: cof, Canceller: canc, NPub: 2, Shutdown: shut, Preempt: -1, Faults: -1})
-				add(Params{NSubs: 1, Fail: 1, CancelOnFail: cof, Canceller: canc, NPub: 1, Shutdown: shut, Replayer: true, ReplayFaults: 1, Preempt: -1, Faults: -1})
+	bools := []bool{false, true}
+	// one subscriber: every script up to its 4th call, unbounded interleavings, Joe not pre-initialised
+	for _, sc := range scripts(4) {
+		for _, canc := range bools {
+			for _, shut := range bools {
+				add(Params{Subs: []Script{sc}, Canceller: canc, NPub: 2, Shutdown: shut, NoPreInit: true, Preempt: -1})
 			}
 		}
 	}
-	pb := 2
-	if tier == "thorough" {
-		pb = 3
+	// one subscriber with a replayer whose Replay fails
+	for _, sc := range scripts(2) {
+		for _, canc := range bools {
+			for _, shut := range bools {
+				for rf := 0; rf <= 1; rf++ {
+					add(Params{Subs: []Script{sc}, Canceller: canc, NPub: 1, Shutdown: shut, Replayer: true, ReplayFail: rf, Preempt: -1})
+				}
+			}
+		}
 	}
-	for _, cof := range []bool{false, true} {
-		for _, canc := range []bool{false, true} {
-			add(Params{NSubs: 2, Fail: 2, CancelOnFail: cof, Canceller: canc, NPub: 2, Shutdown: true, Preempt: pb, Faults: 2})
-			add(Params{NSubs: 2, Fail: 2, CancelOnFail: cof, Canceller: canc, NPub: 2, Shutdown: false, Replayer: true, ReplayFaults: 2, Preempt: pb, Faults: 2})
+	// two subscribers (symmetric: unordered pairs of scripts)
+	maxCall, npub := 2, 1
+	if tier == "thorough" {
+		maxCall, npub = 3, 2
+	}
+	ss := scripts(maxCall)
+	for a := 0; a < len(ss); a++ {
+		for b := a; b < len(ss); b++ {
+			for _, canc := range bools {
+				for _, shut := range bools {
+					add(Params{Subs: []Script{ss[a], ss[b]}, Canceller: canc, NPub: npub, Shutdown: shut, Preempt: -1})
+				}
+			}
 		}
 	}
 	if tier == "thorough" {
-		add(Params{NSubs: 2, Fail: 3, CancelOnFail: true, Canceller: true, NPub: 2, Shutdown: true, Preempt: -1, Faults: -1})
-		add(Params{NSubs: 3, Fail: 2, CancelOnFail: true, Canceller: true, NPub: 2, Shutdown: true, Preempt: 2, Faults: 2})
+		// three subscribers, one publish, preemption-bounded
+		for _, sc := range scripts(2) {
+			add(Params{Subs: []Script{sc, {}, {FailAt: 1, Cancel: true}}, Canceller: true, NPub: 1, Shutdown: true, Preempt: 2})
+		}
 	}
 	return out
 }
 
 var Check = &run.Check{
 	ID: "C06", Level: "model_checking",
-	Rule: "Scenarios: 1-3 subscribers with scripted failing/cancelling MessageWriters x canceller threads x publisher x concurrent Shutdown x scripted replayer errors; all interleavings at synchronisation operations (preemption bound per scenario, -1 = unbounded with state-key pruning), all select tie-breaks, all map orders, all fault choices.",
+	Rule: "Scenarios: 1-3 subscribers whose MessageWriter fails at its k-th Send/Flush call (k enumerated; with and without cancelling the subscriber's context in the same step, as net/http does) x canceller threads x publisher x concurrent Shutdown x replayer whose Replay fails; per scenario all interleavings at synchronisation operations (unbounded with state-key pruning unless the scenario name says pb>=0), all select tie-breaks and all map orders are explored.",
 	Assumptions: []string{
 		"schedules are explored at the granularity of synchronisation operations under sequential consistency (DESIGN.md 2.1)",
 		"a panic reaching the top of a goroutine is process death",
+		"'after Subscribe returned' is taken strictly: the flag is set in the scheduler step of Subscribe's last synchronisation operation",
 	},
 	Scenarios:   Scenarios,
-	QuickBudget: 60, ThoroughBudget: 600,
+	QuickBudget: 90, ThoroughBudget: 900,
 }
